@@ -32,3 +32,17 @@ Theorem cascade_succeeds : forall s id now,
   st_kind s = Linear -> st_fail s = None -> no_expired s now ->
   exists s' had, st_rem s id now = (s', Ok had).
 Proof. exact cascade_ok_linear. Qed.
+
+(** The purge of the expired items that the readers noted (rounds of cascading
+    removals under the write lock, since the repair of D52) terminates on
+    EVERY state with the rounds the model allows (|facts| + 1), never panics,
+    reports no error of its own, and leaves no id noted ... *)
+Theorem purge_terminates_all_states : forall s now,
+  snd (purge s now) = Ok tt /\ st_pending (fst (purge s now)) = [].
+Proof. exact purge_terminates. Qed.
+
+(** ... so a public entry point answers exactly what its operation proper
+    answered, in the state the purge leaves. *)
+Theorem purge_keeps_the_answer : forall A (r : state * outcome A) now,
+  with_purge r now = (fst (purge (fst r) now), snd r).
+Proof. exact purge_keeps_answer. Qed.
